@@ -228,7 +228,9 @@ func judgeDiff(sc diffScenario) (string, string) {
 		if strings.HasPrefix(ev, "nocompare:") {
 			continue
 		}
-		if a, b := project(wl), project(wd); a != b {
+		if a, b := project(wl), project(wd); a != b && strings.ReplaceAll(b, " Paused=Unknown", "") == a {
+			return fmt.Sprintf("[only Paused=Unknown] after step %d (%s) the ObjectSet with delegated layout %03b additionally reports Paused=Unknown: a delegated phase behind a phase that is not passing keeps the paused state of before the step\n--- local\n%s--- delegated\n%s", i, ev, sc.Mask, a, b), ""
+		} else if a != b {
 			return fmt.Sprintf("after step %d (%s) the delegated layout %03b behaves differently from the in-process one:\n--- local\n%s--- delegated\n%s", i, ev, sc.Mask, a, b), ""
 		}
 	}
@@ -274,7 +276,9 @@ func runDiff(o checks.Opts) *report.Report {
 		rep.Outcomes[final]++
 		if msg != "" {
 			id := "delegated-differs"
-			if len(sc.Script) > 0 {
+			if strings.HasPrefix(msg, "[only Paused=Unknown]") {
+				id = "delegated-reports-paused-unknown-behind-failing-phase"
+			} else if len(sc.Script) > 0 {
 				id += " after " + strings.SplitN(sc.Script[len(sc.Script)-1], ":", 2)[0]
 			}
 			rep.AddViolation(report.Violation{Identity: id, Message: msg + fmt.Sprintf("\nscenario: %+v", sc), Params: map[string]any{"scenario": sc}})
